@@ -161,7 +161,6 @@ func checkC01Alias(res *Result, S *Streams) {
 	}
 }
 
-
 // claimsIgnoreAlias: for every generated type, are the member names of its vocabulary
 // properties claimed under the alias-prefixed spelling the property readers look them up under
 // (k == <prefix of the vocabulary's alias> + "name")? Returns ok, the number of types examined
